@@ -55,7 +55,9 @@ TRUSTED = [
 
 PARTIAL = ("not modelled / not sampled: ttl=None and ttl=0 ('no ttl'; theorems treat 0 as such), non-dyadic TTLs, non-ASCII duration strings "
            "(str.isdigit/lower/strip are modelled on ASCII), a condition callable that returns an exception instance for a normal result, "
-           "a function that *returns* an exception instance, consumers that let time pass while reading a replay or leave a stream suspended while "
+           "a function that *returns* an exception instance (basic decorator; generators may yield them), items that the CONSUMER mutates before the "
+           "generator is resumed, nested mutable items (the in-memory backend keeps a shallow copy), yielded exception objects whose class "
+           "copy.copy / pickle do not rebuild (shapes 1-4, 6) or that are falsy, consumers that let time pass while reading a replay or leave a stream suspended while "
            "other calls are made (interleaved consumers are C07's kind of history), callers that JOIN an in-flight call and cancellation in the middle "
            "of a slow function (the function is held before it does any work), "
            "equal-but-different arguments beyond int / bool / float (IntEnum members, Decimal), "
@@ -198,12 +200,18 @@ def gen_iter(rng) -> dict:
         else:
             ops.append(["adv", advances(rng, t)])
     config = rng.choice(["plain", "plain", "secret"])
+    odd = rng.random() < 0.5
     runs = []
     for _ in range(sum(1 for o in ops if o[0] == "call")):
         n = rng.choice([0, 1, 2, 2, 3, 3, 4])
         steps = []
         for j in range(n):
             k = rng.choice(["v", "v", "v", "n", f"f{rng.randrange(4)}", f"f{rng.randrange(4)}"])
+            if odd and rng.random() < 0.5:
+                # "whatever the items are": odd constants, an exception INSTANCE yielded as a value, one dict object that the
+                # generator keeps updating and yields again
+                shape = rng.choice(dh.EOBJ_SHAPES)
+                k = rng.choice([f"f{rng.randrange(4, len(dh.CONSTS))}", f"y{rng.randrange(3)}" + (f"p{shape}" if shape else ""), "m", "m"])
             d = rng.choice([0, 0, 0, 0, 1, 2, max(1, t // 2), max(1, t - 1), t])
             steps.append(f"{k}:{d}" if d else k)
         if rng.random() < 0.25:
@@ -339,6 +347,10 @@ def signature_of(case, trace, idx, msg) -> str:
         return "ttl-callable-not-given-the-result"
     if "a run that never ended" in msg:
         return "iter-replays-interrupted-run"
+    if "but the replay RAISED it" in msg:
+        return "iter-replay-raises-a-yielded-exception-object"
+    if "the replay shows the object in a later state" in msg:
+        return "iter-replay-shows-a-later-state-of-a-mutable-item"
     if case["kind"] == "iter":
         if "raised" in msg:
             return "decorator-raises"
@@ -413,13 +425,16 @@ def describe_case(case) -> list[str]:
     for n, b in enumerate(case["script"]):
         if simple:
             k, d = dh.parse_beh(b)
-            what = {"v": f"returns 'v{n}'", "n": "returns None"}.get(k) or (f"returns {dh.FALSY[int(k[1:])]!r}" if k[0] == "f" else "raises " + dh.expected_exc_text(f"x{k[1:]}.{n}"))
+            what = {"v": f"returns 'v{n}'", "n": "returns None"}.get(k) or (f"returns {dh.CONSTS[int(k[1:])]!r}" if k[0] == "f" else "raises " + dh.expected_exc_text(f"x{k[1:]}.{n}"))
             out.append(f"  execution {n}: takes {d / 8} s, {what}")
         else:
             steps, fd = dh.parse_run(b)
             parts = []
             for i, (k, d) in enumerate(steps):
-                what = {"v": f"yield 'v{n}.{i}'", "n": "yield None"}.get(k) or (f"yield {dh.FALSY[int(k[1:])]!r}" if k[0] == "f" else "raise " + dh.expected_exc_text(f"x{k[1:]}.{n}"))
+                what = ({"v": f"yield 'v{n}.{i}'", "n": "yield None", "m": f"row['run'], row['i'] = {n}, {i}; yield row  (the same dict object every time)"}.get(k)
+                        or (f"yield {dh.CONSTS[int(k[1:])]!r}" if k[0] == "f" else
+                            "yield the exception object " + dh.expected_exc_text(f"x{k[1:]}.{n}") if k[0] == "y" else
+                            "raise " + dh.expected_exc_text(f"x{k[1:]}.{n}")))
                 parts.append((f"<{d / 8} s> " if d else "") + what)
             out.append(f"  run {n}: " + "; ".join(parts) + (f"; <{fd / 8} s>" if fd else "") + ("" if parts else " (yields nothing)"))
     for op in case["ops"]:
@@ -623,6 +638,16 @@ def interesting(case, trace, log) -> set[str]:
             else:
                 if mode and mode[0] == "take":
                     out.add("consumer-stops-early-on-a-replay")
+                if any(it.startswith("y") for it in items[:-1]):
+                    out.add("replay-yields-an-exception-object-and-goes-on")
+                if any(it.startswith("y") for it in items[-1:]):
+                    out.add("replay-ends-with-a-yielded-exception-object")
+                for it in items:
+                    if it.startswith("f") and int(it[1:]) >= 4:
+                        out.add("replay-with-odd-item:" + type(dh.CONSTS[int(it[1:])]).__name__)
+                for y in log[:seen]:
+                    if y["key"] == k and y["complete"] and y["outs"] == items and len(y.get("mutable_positions", ())) >= 2:
+                        out.add("replay-of-a-run-that-re-yielded-one-mutable-object")
                 if any(it == "n" or it.startswith("f") for it in items[:-1]):
                     out.add("replay-with-falsy-non-last-item")
                 if items and items[-1].startswith("x"):
@@ -836,7 +861,9 @@ def run(chk: Check) -> int:
                 "that differ in the overflow), time advances around the ttl; callers of the basic decorator that are cancelled while the function "
                 "runs (with and without thunder protection); iterator calls read by a consumer that drains the "
                 "stream, stops after 1..4 elements (aclose / drop / cancelled between items) or is cancelled while the generator works on step "
-                "0..4) x scripted outcomes with durations (failures: 3 exception classes x %d payload "
+                "0..4) x scripted outcomes with durations (generator items: payloads, None, 4 falsy and 5 odd constants - tuple, bytes, 0.0, a look-alike "
+                "of the RaiseException wrapper, a dict -, exception INSTANCES yielded as values (3 classes x 3 shapes), one dict object "
+                "that the run keeps updating and yields again) (failures: 3 exception classes x %d payload "
                 "shapes, compared by complete observation) x 23 (simple; 6 of them time_condition= together with condition=) / 11 (iterator) conditions x " % len(dh.GENERATED_SHAPES) +
                 "all TTL spelling families x plain/signed+pickled mem:// x key templates, generated from VERIF_SEED; a case is "
                 "non-trivial iff it reached at least one state listed under interesting_states_cases; distinct = distinct case dicts",
